@@ -73,11 +73,27 @@ func windowWriter(hb *core.HB, rng *rand.Rand, ks *core.KeySet, valIdx *int, max
 			return
 		}
 		n := 1 + rng.Intn(2)
+		if point == "compact:picked" || point == "compact:segment" {
+			// between the pick and the first record: a burst that prefers deleting live keys (their put record may
+			// live in an older segment that was not picked, their delete record goes into the current one)
+			n = 2 + rng.Intn(3)
+		}
 		for i := 0; i < n && budget > 0; i++ {
 			budget--
 			key := ks.Keys[rng.Intn(len(ks.Keys))]
 			*valIdx++
 			op := rng.Intn(10)
+			if point == "compact:picked" || point == "compact:segment" {
+				if rng.Intn(10) < 7 {
+					op = 5 // delete
+					for try := 0; try < 8; try++ {
+						if _, live := hb.Ref[string(key)]; live {
+							break
+						}
+						key = ks.Keys[rng.Intn(len(ks.Keys))]
+					}
+				}
+			}
 			if op < 8 && classify != nil {
 				classify(hb, key)
 			}
